@@ -61,14 +61,15 @@ Fixpoint copy_props (inv : list (Z * list str)) (beh : list (Z * Z)) (allowed : 
 Definition nonempty_props (p : option props) : option props :=
   match p with Some (x :: r) => Some (x :: r) | _ => None end.
 
-Fixpoint convert_charts (inv : list (Z * list str)) (beh : list (Z * Z)) (allowed : option (list str))
+(* [post]: what is done to a chart once the properties are copied (SSC output: its note data goes last) *)
+Fixpoint convert_charts (post : props -> props) (inv : list (Z * list str)) (beh : list (Z * Z)) (allowed : option (list str))
          (tmpl : props) (charts : list props) : cres (list props) :=
   match charts with
   | [] => COk []
   | c :: r =>
       match copy_props inv beh allowed c tmpl with
-      | COk c' => match convert_charts inv beh allowed tmpl r with
-                  | COk r' => COk (c' :: r')
+      | COk c' => match convert_charts post inv beh allowed tmpl r with
+                  | COk r' => COk (post c' :: r')
                   | e => e
                   end
       | CNotImpl => CNotImpl | CInvalid k => CInvalid k | CKeyError => CKeyError | CUnmodelled => CUnmodelled
@@ -96,12 +97,15 @@ Definition lift_charts {T} (out : T) (base_charts : list props) (r : cres (list 
   | CNotImpl => CNotImpl | CInvalid k => CInvalid k | CKeyError => CKeyError | CUnmodelled => CUnmodelled
   end.
 
-Definition convert_core (inv_sf inv_chart : list (Z * list str)) (beh : list (Z * Z)) (allowed : option (list str))
+Definition convert_core (post : props -> props) (inv_sf inv_chart : list (Z * list str)) (beh : list (Z * Z)) (allowed : option (list str))
            (sf : props) (charts : list props) (base : props) (base_charts : list props) (ct : props) : cres (props * list props) :=
   match copy_props inv_sf beh None sf base with
-  | COk out => lift_charts out base_charts (convert_charts inv_chart beh allowed ct charts)
+  | COk out => lift_charts out base_charts (convert_charts post inv_chart beh allowed ct charts)
   | CNotImpl => CNotImpl | CInvalid k => CInvalid k | CKeyError => CKeyError | CUnmodelled => CUnmodelled
   end.
+
+(* the converted SSC chart keeps its note data last (convert._convert moves NOTES to the end) *)
+Definition notes_last (c : props) : props := move_to_end kNOTES c.
 
 (* source: SM props + SM charts (as maps of six); templates: optional SSC simfile (props + charts) and chart *)
 Definition sm_to_ssc (sf : props) (charts : list props) (tmpl_sf : option (props * list props)) (tmpl_chart : option props)
@@ -109,7 +113,7 @@ Definition sm_to_ssc (sf : props) (charts : list props) (tmpl_sf : option (props
   match sm_negative_timing sf with
   | COk true => CNotImpl
   | COk false =>
-      convert_core Tables.invalid_ssc_simfile Tables.invalid_ssc_chart [] None sf charts
+      convert_core notes_last Tables.invalid_ssc_simfile Tables.invalid_ssc_chart [] None sf charts
         (fst (base_of Tables.blank_ssc_simfile tmpl_sf)) (snd (base_of Tables.blank_ssc_simfile tmpl_sf))
         (chart_tmpl_of Tables.blank_ssc_chart tmpl_chart)
   | _ => CUnmodelled
@@ -121,7 +125,7 @@ Definition ssc_has_warps (sf : props) : bool := truthy (get kWARPS sf).
 Definition ssc_to_sm (sf : props) (charts : list props) (tmpl_sf : option (props * list props)) (tmpl_chart : option props)
            (beh : list (Z * Z)) : cres (props * list props) :=
   if ssc_has_warps sf then CNotImpl else
-  convert_core Tables.invalid_sm_simfile Tables.invalid_sm_chart beh (Some Tables.sm_chart_properties) sf charts
+  convert_core (fun c => c) Tables.invalid_sm_simfile Tables.invalid_sm_chart beh (Some Tables.sm_chart_properties) sf charts
     (fst (base_of Tables.blank_sm_simfile tmpl_sf)) (snd (base_of Tables.blank_sm_simfile tmpl_sf))
     (chart_tmpl_of Tables.blank_sm_chart tmpl_chart).
 
